@@ -315,10 +315,13 @@ def owned(snap, roots, with_ports=True):
     if with_ports:
         for l in links:
             E = link_ends(snap, l, adj)
-            if len(E) == 2:
+            if l in C:
+                # a removed Link takes the ServicePorts it peered with it (they exist only to peer over it)
+                P |= {sp for sp in E if snap.nodes[sp][1] == "ServicePort"}
+            elif len(E) == 2:
                 a, z = tuple(E)
                 for i, sp in ((a, z), (z, a)):
-                    if (i in C or l in C) and sp not in C and snap.nodes[sp][1] == "ServicePort":
+                    if i in C and sp not in C and snap.nodes[sp][1] == "ServicePort":
                         P.add(sp)
     O = C | P
     L = set()
